@@ -73,6 +73,11 @@ def bnf_string(s):
     return '"' + s.replace("\\", "\\\\").replace('"', '\\"').replace("\n", "\\n").replace("\t", "\\t").replace("\r", "\\r") + '"'
 
 
+# Python extension files whose `grammar` is not a grammar (a malformed grammar: exit code 65 with a message)
+BAD_PY_GRAMMARS = ["def grammar():\n    return {}['<start>']\n", "grammar = 42\n", "grammar = {'<start>': 'not a list'}\n",
+                   "def grammar():\n    return [('<start>', ['a'])]\n"]
+
+
 def bnf_text(grammar, drop_rule=None, rename_start=None):
     lines = []
     for nt, alts in grammar.items():
@@ -233,6 +238,20 @@ def materialise(v, cat, rnd, cid):
                 gtext, note["illformed"] = bnf_text(g, rename_start="<begin>"), "no-start"
         if v["gvia"] == "opt":
             opts += ["-g", gtext]
+        elif v["gvia"] == "py" and v["g"] == "ok":
+            files["grammar.py"] = rnd.choice(["grammar = %r\n", "def grammar():\n    return %r\n"]) % (dict(g),)
+            fargs.append("grammar.py")
+        elif v["gvia"] == "py":
+            files["grammar.py"] = rnd.choice(BAD_PY_GRAMMARS)
+            fargs.append("grammar.py")
+        elif v["gvia"] == "split":
+            nts = list(g)
+            cut = rnd.randrange(1, len(nts)) if len(nts) > 1 else 1
+            part_bnf = {n: g[n] for n in nts[:cut]}
+            part_py = {n: g[n] for n in nts[cut:]}
+            files["grammar.bnf"] = bnf_text(part_bnf)
+            files["rest.py"] = "def grammar():\n    return %r\n" % (part_py,)
+            fargs += rnd.choice([["grammar.bnf", "rest.py"], ["rest.py", "grammar.bnf"]]) if part_py else ["grammar.bnf"]
         else:
             files["grammar.bnf"] = gtext
             fargs.append("grammar.bnf")
@@ -295,6 +314,8 @@ def select_vectors(vectors, P, rnd):
     core += [v for v in vectors if v["ik"] == "file" and v["ic"] == "empty" and v["g"] == "ok" and v["gvia"] == "file"
              and v["c"] == "one" and v["cvia"] == "file" and v["cmd"] != "check"]
     core += [v for v in vectors if v["cmd"] == "solve" and v["g"] == "ok"]
+    core += [v for v in vectors if v["gvia"] in ("py", "split") and v["c"] == "one" and v["cvia"] == "file" and v["ik"] in ("none", "file")
+             and v["ic"] in ("na", "sat", "unsat")]
     keyf = lambda v: json.dumps(v, sort_keys=True)
     seen = {keyf(v) for v in core}
     rest = sorted((v for v in vectors if keyf(v) not in seen), key=keyf)
